@@ -229,7 +229,15 @@ fn run_c06(ctx: &mut Ctx) -> Verdict {
                 None => return Verdict::Pass,
             }
         }
-        None => c06_seeded(ctx),
+        None => {
+            // one seeded run in ten: the reader is dropped between two deliveries (C18's real-transport
+            // scenario) - bytes of a message already taken off the stream must not be lost with it
+            if ctx.tape.weighted(&[9, 1]) == 1 {
+                ctx.count("runs.reader_dropped_between_deliveries");
+                return super::c18_rsim::run_mode(ctx, super::c18_rsim::Mode::DropReaders);
+            }
+            c06_seeded(ctx)
+        }
     };
     ev!(ctx, "scenario {}/{}", sc.kind.name(), sc.label);
     let o = run_scenario(ctx, &sc);
@@ -467,7 +475,7 @@ pub static C06: PropSpec = PropSpec {
     runs: |t| if t == Tier::Thorough { 300_000 } else { 500 },
     enumerated: |_| 3 * c06_enum_per_kind() as u64,
     run: run_c06,
-    rule: "enumerated per transport (TLS, local CLI, SSH): a two-reply stream with every single cut from 8 bytes before to 8 bytes after each delimiter (hello, reply 1, reply 2), every pair of cuts inside one delimiter, all groupings of 2 and 3 replies into units, one-byte chunks, single-unit replies of 41 sizes around the receive buffer's capacity boundaries; seeded: 1-5 replies of 110..9000 bytes, 0-5 cuts (half of them within 8 bytes of a delimiter), message boundaries cut or merged, hello cut as well. One chunk = one TLS record / one SSH CHANNEL_DATA / one pipe write, delivered in lock-step under the paused clock; after each completed reply the peer stays silent for 400 virtual ms. Oracle: every request resolves to its own reply, within 100 virtual ms of the delivery of the last byte of its delimiter. Distinct = distinct event-log hash; every run is non-trivial",
+    rule: "enumerated per transport (TLS, local CLI, SSH): a two-reply stream with every single cut from 8 bytes before to 8 bytes after each delimiter (hello, reply 1, reply 2), every pair of cuts inside one delimiter, all groupings of 2 and 3 replies into units, one-byte chunks, single-unit replies of 41 sizes around the receive buffer's capacity boundaries; seeded: 1-5 replies of 110..9000 bytes, 0-5 cuts (half of them within 8 bytes of a delimiter), message boundaries cut or merged, hello cut as well; one seeded run in ten drops the reading future between two deliveries (the bytes it had taken off the stream must stay with the transport). One chunk = one TLS record / one SSH CHANNEL_DATA / one pipe write, delivered in lock-step under the paused clock; after each completed reply the peer stays silent for 400 virtual ms. Oracle: every request resolves to its own reply, within 100 virtual ms of the delivery of the last byte of its delimiter. Distinct = distinct event-log hash; every run is non-trivial",
     components: COMPONENTS,
     assumptions: &["Linux delivers loopback TCP and pipe data synchronously with write(); the standing two-worker re-execution check guards the resulting determinism"],
     watchdog_s: 8,
